@@ -62,6 +62,7 @@ type MapRange struct {
 	FindingKeys  []string // parallel to Findings: a line-free key of what escapes
 	Sanitised    []string
 	mapReads     []mapRead
+	localReads   []mapRead
 	callStores   []mapRead
 	directStores []mapRead
 	Returned     []string // locals filled in map order and only returned (decided at call sites)
@@ -824,6 +825,76 @@ func (oa *OrderAnalysis) analyse(fs *fnSummary, final bool) []*MapRange {
 						for _, lm := range loopStack {
 							lm.mapReads = append(lm.mapReads, mapRead{k, x.Pos(), types.ExprString(x)})
 						}
+					} else {
+						// a map of the function itself: it carries a dependence for the loops it is
+						// declared outside of
+						for _, lm := range loopStack {
+							if oa.rootKind(p, fd, lm.Stmt, root) != RootLocalInner {
+								lm.localReads = append(lm.localReads, mapRead{k, x.Pos(), types.ExprString(x)})
+							}
+						}
+					}
+				}
+			}
+		case *ast.BranchStmt:
+			// `break` out of a map range after doing something with the element: the element the
+			// loop stops at is the first one the iteration happens to visit
+			if m := cur(); m != nil && m.IsMap && x.Tok == token.BREAK && litDepth == 0 {
+				anc := parents[x]
+				var target ast.Node
+				for i := len(anc) - 1; i >= 0 && target == nil; i-- {
+					switch a := anc[i].(type) {
+					case *ast.ForStmt, *ast.RangeStmt, *ast.SwitchStmt, *ast.TypeSwitchStmt, *ast.SelectStmt:
+						target = a
+					}
+				}
+				if x.Label != nil {
+					target = nil
+					for i := len(anc) - 1; i >= 0; i-- {
+						if ls, ok := anc[i].(*ast.LabeledStmt); ok && ls.Label.Name == x.Label.Name {
+							target = ls.Stmt
+						}
+					}
+				}
+				if target == ast.Node(m.Stmt) {
+					var block []ast.Stmt
+					for i := len(anc) - 1; i >= 0 && block == nil; i-- {
+						switch a := anc[i].(type) {
+						case *ast.BlockStmt:
+							block = a.List
+						case *ast.CaseClause:
+							block = a.Body
+						}
+					}
+					carried := ""
+					for _, st := range block {
+						if st.Pos() >= x.Pos() {
+							break
+						}
+						switch y := st.(type) {
+						case *ast.ExprStmt:
+							if _, isCall := ast.Unparen(y.X).(*ast.CallExpr); isCall {
+								carried = types.ExprString(y.X)
+							}
+						case *ast.AssignStmt:
+							if y.Tok == token.DEFINE {
+								continue
+							}
+							for _, r := range y.Rhs {
+								if tv, ok := info.Types[r]; ok && tv.Value != nil {
+									continue
+								}
+								if id, ok := ast.Unparen(r).(*ast.Ident); ok && (id.Name == "true" || id.Name == "false" || id.Name == "nil") {
+									continue
+								}
+								carried = exprList(y.Lhs) + " = " + exprList(y.Rhs)
+							}
+						case *ast.IncDecStmt:
+							carried = types.ExprString(y.X)
+						}
+					}
+					if carried != "" {
+						addEffect(Effect{Kind: "first-match", Pos: x.Pos(), Text: carried + "; break"})
 					}
 				}
 			}
@@ -1147,7 +1218,7 @@ func (oa *OrderAnalysis) analyse(fs *fnSummary, final bool) []*MapRange {
 	}
 	for _, m := range ranges {
 		seenLC := map[string]bool{}
-		for _, r := range m.mapReads {
+		for _, r := range append(append([]mapRead{}, m.mapReads...), m.localReads...) {
 			visitedSet := false
 			for _, d := range m.directStores {
 				if d.loc == r.loc && d.text == r.text {
@@ -1156,6 +1227,12 @@ func (oa *OrderAnalysis) analyse(fs *fnSummary, final bool) []*MapRange {
 			}
 			if visitedSet {
 				continue
+			}
+			for _, d := range m.directStores {
+				if d.loc == r.loc && d.text != r.text && !seenLC[r.loc] {
+					seenLC[r.loc] = true
+					addF(m, "loop-carried "+r.text, fmt.Sprintf("loop-carried dependence through a map: the body reads %s and stores %s in the same loop, so what one iteration finds depends on which iterations ran before it", r.text, d.text))
+				}
 			}
 			for _, w := range m.callStores {
 				if r.loc == w.loc && !seenLC[r.loc] {
